@@ -109,7 +109,7 @@ def par_payload(par):
 # ---------------------------------------------------------------------------------------
 # grids and spectra
 # ---------------------------------------------------------------------------------------
-def gen_grid(rng, uniform_dirs=False, nd_choices=(16, 24, 36), small=False):
+def gen_grid(rng, uniform_dirs=False, nd_choices=(16, 24, 36), small=False, nf_range=(10, 26)):
     nd = rng.choice(nd_choices)
     kind = "uniform" if uniform_dirs else rng.choice(["uniform", "uniform", "uniform", "offset", "jitter"])
     step = 360.0 / nd
@@ -121,10 +121,15 @@ def gen_grid(rng, uniform_dirs=False, nd_choices=(16, 24, 36), small=False):
     else:
         d = [j * step + C.dyadic(rng, -0.3, 0.3, 6) * step for j in range(nd)]
         d[0] = abs(d[0])
-    fk = rng.choice(["linear", "geometric", "geometric"])
-    nf = rng.randint(3, 9) if small else rng.randint(10, 26)
+    fk = rng.choice(["linear", "geometric", "geometric", "ties"])
+    nf = rng.randint(3, 9) if small else rng.randint(*nf_range)
     f0 = rng.choice([0.03, 0.035, 0.04, 0.05])
-    if fk == "linear":
+    if fk == "ties":
+        # frequencies that are exact halves of other frequencies: the cumulative ST4 term compares
+        # omega' > 0.5 * omega, so the bound itself is hit (the comparison must not be >=)
+        h = rng.choice([0.03125, 0.0234375, 0.046875])
+        f = [h * (i + 2) for i in range(nf)]
+    elif fk == "linear":
         f1 = rng.choice([0.4, 0.5, 0.64, 0.8])
         f = [f0 + (f1 - f0) * i / (nf - 1) for i in range(nf)]
     else:
@@ -373,7 +378,7 @@ def replay_of(batch, k, extra=None):
 
 def run(ctx):
     rng = ctx.rng
-    nb = ctx.n(14, 420)
+    nb = ctx.n(14, 300)
     batches = make_batches(rng, nb)
     # deterministic corner batches: empty spectrum, single point, default parameters on the 36-direction grid
     # ------------------------------------------------------------------ implementation cases
@@ -451,6 +456,8 @@ def run(ctx):
             mindex.append((bi, k, "st6"))
             mlines.append(line_diss("rom", p["depth"], b["ro"], ROM_ORDER, sg, b["Epos"][k]))
             mindex.append((bi, k, "rom"))
+            mlines.append("kcg %s %s" % (finf(p["depth"]), C.flist(sg["radian_frequency"])))
+            mindex.append((bi, k, "kcg"))
     mres = ctx.model(mlines, timeout=3400)
     mod = {}
     for key, toks in zip(mindex, mres):
@@ -466,6 +473,7 @@ def run(ctx):
         main = by[bi]["main"][0][1]
         ctx.tally("batch size %d" % len(b["pts"]))
         ctx.tally("directions %d (%s)" % (nd, g["dirkind"]))
+        ctx.tally("frequency grid " + g["fkind"])
         ctx.tally("wind input type " + b["windkind"])
         ctx.tally("parameters " + ("non-default" if b["nondefault"] else "default"))
         if is_err(main):
@@ -553,6 +561,15 @@ def run(ctx):
             dr = compare("romero dissipation", (bi, k, "rom"), get(rom, "rom_rate", k), get(rom, "rom_bulk", k), b["Epos"][k],
                          {"variance_density_positive": unflat(b["Epos"][k], nf, nd)})
 
+            # premise of the sign theorems: wavenumbers and group velocities of the (modelled) Newton iteration > 0
+            tk = mod.get((bi, k, "kcg"))
+            if tk is not None and tk[0] != "ERR":
+                vals = [C.unfx(t) for t in tk[1:1 + nf]] + [C.unfx(t) for t in tk[2 + nf:2 + 2 * nf]]
+                if all(v > 0 for v in vals):
+                    ctx.tally("theorem premise k_i > 0, cg_i > 0 holds")
+                else:
+                    ctx.tally("theorem premise k_i > 0, cg_i > 0 FAILS")
+                    ctx.notes.append("premise k>0/cg>0 fails for depth %r frequencies %r" % (p["depth"], g["f"]))
             # ---------------- oracles on the implementation alone
             rep = replay_of(b, k)
             if gr is not None and not is_err(gr):
@@ -732,8 +749,25 @@ def run(ctx):
                                                             impl_value=implv[i], model_value=mf[i]))
 
 
-READY = False
-LEVEL_TEXT = ("Theorems (Coq, all grid sizes, all non-negative spectra, positive parameters and wavenumbers): ...")
-LEVEL_NOTE = ("in progress")
+READY = True
+LEVEL_TEXT = ("Theorems (Coq, every grid size, every non-negative spectrum, every wind/depth/roughness, positive physical "
+              "parameters): ST4 wind input >= 0 in every bin, = 0 where E = 0 and where cos(theta_j - theta_wind) <= 0, linear in "
+              "E at fixed roughness; ST4 (saturation + cumulative) and ST6 (inherent + cumulative) dissipation <= 0, = 0 where "
+              "E = 0, identically 0 (field and bulk) for the empty spectrum; Romero <= 0 for positive wavenumbers / group "
+              "velocities; bulk = sum_ij rate_ij df_i dtheta_j for both bulk paths; imbalance = generation + dissipation - dE/dt "
+              "(spectral and bulk); batch results are the per-point results (map / nth_error). The premises on wavenumber and "
+              "group velocity are discharged for deep water (the modelled Newton iteration returns w^2/g). The Gallina model "
+              "follows the jitted loops line by line (mutual-angle wrap, Janssen clamp, band-integrated saturation with its edge "
+              "tolerance, break in the cumulative loop, running ST6 sum, vectorised Newton wavenumber solver with its global stop) "
+              "and is tied to /repo on every run by executing the extracted model and the implementation on the same generated "
+              "spectra (observed deviation < 1e-14).")
+LEVEL_NOTE = ("Not proved: nothing about floating point rounding; positivity of the finite-depth Newton wavenumbers (premise "
+              "k_i, cg_i > 0, checked on every generated case by execution); numba/xarray layout semantics and the internally "
+              "solved roughness length (generation.rate without roughness_length is compared against the model evaluated at the "
+              "implementation's own roughness() output). The saturation cosine power is modelled for positive cosines "
+              "(integration width < 90 degrees). Romero is stated for strictly positive spectra only (the code divides by the "
+              "directional saturation). Standard-library real-number axioms only.")
 TECHNIQUE = "Coq proof over a Gallina model of the jitted loops + extracted-model correspondence + relation oracles on the implementation"
 DESIGN_REF = "DESIGN.md section 5 C08"
+TRUSTED = ["numba compilation of the jitted source-term loops (prange, fastmath reassociation in numba_integrate_spectral_data)",
+           "xarray/numpy layout of FrequencyDirectionSpectrum (one leading dimension) as exercised by harness/impl/C08.py"]
